@@ -42,11 +42,15 @@ MIN_COUNTERS = {
     'quick': {'programs_compared': 250, 'comparisons': 1200, 'failing_builds': 150,
               'residue_checks': 450, 'concurrent_builds': 200,
               'concurrent_serialisations': 100, 'shared_argument_cases': 100,
-              'signed_zero_cases': 100},
+              'signed_zero_cases': 100,
+              'routine_steps_during_concurrent_builds': 100,
+              'builds_inside_a_routine_during_concurrent_builds': 10},
     'thorough': {'programs_compared': 40000, 'comparisons': 160000,
                  'failing_builds': 30000, 'residue_checks': 60000,
                  'concurrent_builds': 40000, 'concurrent_serialisations': 1500,
-                 'shared_argument_cases': 20000, 'signed_zero_cases': 20000},
+                 'shared_argument_cases': 20000, 'signed_zero_cases': 20000,
+                 'routine_steps_during_concurrent_builds': 2000,
+                 'builds_inside_a_routine_during_concurrent_builds': 100},
 }
 
 KINDS = ['c01', 'c01', 'plain', 'mc', 'wf', 'variants', 'c01', 'mc']
@@ -326,6 +330,44 @@ def run_shard(spec, acc):
             acc.count('injected_yields', inj.injected)
             acc.extra['progs'] = out
             return
+        # real-time mode: the clocks are busy meanwhile - routines whose steps take a
+        # moment run on SystemClock and on a TempoClock (each step switches the
+        # library's current time thread), one of them builds definitions itself
+        bg_stop = [False]
+        bg_clock = None
+        if cfg.get('mode') == 'rt':
+            from sc3.base import clock as clk, stream as stm
+            bg_clock = clk.TempoClock(3.0)
+            bns = gg.namespace()
+            brng = random.Random(derive_seed(seed, 'C20', cfg['name'], 'bg'))
+            bidx = list(idx[::max(1, len(idx) // 40)])
+
+            def ticker():
+                while not bg_stop[0]:
+                    t0 = time.time()
+                    while time.time() - t0 < 0.0004:    # a step that takes a moment
+                        pass
+                    with lock:
+                        acc.count('routine_steps_during_concurrent_builds')
+                    yield 0.001
+
+            def builder():
+                for i in bidx:
+                    if bg_stop[0]:
+                        return
+                    try:
+                        r = build_one(gg, bns, gen(seed, i),
+                                      describe=brng.choice([False, True, 'nokeep']))
+                        with lock:
+                            out.setdefault(str(i) + ':in-routine', r)
+                            acc.count('builds_inside_a_routine_during_concurrent_builds')
+                    except BaseException as e:   # noqa
+                        errs.append(short_tb(e))
+                    yield 0.002
+            for c in (clk.SystemClock, bg_clock, clk.SystemClock):
+                stm.Routine(ticker).play(c) if c is clk.SystemClock else \
+                    stm.Routine(ticker).play(c, 0)
+            stm.Routine(builder).play(clk.SystemClock)
         ths = [threading.Thread(target=worker, args=(k,), daemon=True)
                for k in range(nt)]
         for t in ths:
@@ -335,6 +377,10 @@ def run_shard(spec, acc):
         deadline = time.time() + min(max(90.0, 0.25 * len(idx)), 0.7 * cfg.get('hard_timeout', 900))
         for t in ths:
             t.join(max(0.1, deadline - time.time()))
+        bg_stop[0] = True
+        if bg_clock is not None:
+            time.sleep(0.01)
+            bg_clock.stop()
         hung = [t for t in ths if t.is_alive()]
         if hung:
             import traceback
@@ -575,17 +621,21 @@ def finalize(results, tier, seed):
         for i, a in ref.items():
             ncmp = 0
             for kind, name, progs in lst:
-                if kind == 'ref' or i not in progs:
+                if kind == 'ref':
                     continue
-                b = progs[i]
-                ncmp += 1
-                cnt('comparisons')
-                cnt(f'comparisons_{kind}')
-                if a[:2] != b[:2]:
+                cands = [(kind, progs[i])] if i in progs else []
+                if i + ':in-routine' in progs:
+                    cands.append((kind + '-in-routine', progs[i + ':in-routine']))
+                for kind_, b in cands:
+                    ncmp += 1
+                    cnt('comparisons')
+                    cnt(f'comparisons_{kind_}')
+                    if a[:2] == b[:2]:
+                        continue
                     prog = gen(seed, int(i))
                     what = 'bytes-differ' if a[0] == b[0] == 'ok' else \
                         'outcome-differs'
-                    viol(f'C20/{what}/reference-vs-{kind}',
+                    viol(f'C20/{what}/reference-vs-{kind_}',
                          {'case': int(i), 'program_kind': prog.get('kind', 'c01'),
                           'reference': a, 'other': b, 'other_shard': name,
                           'script': gg.script(prog)[:3000]})
